@@ -38,6 +38,12 @@ func ReadLinesBlockExt(r io.Reader, dstBuf, tailBuf []byte, maxLineLen, blockSiz
 	dstBuf = append(dstBuf[:0], tailBuf...)
 	tailBuf = tailBuf[:0]
 	originLen := len(dstBuf)
+	if len(dstBuf) == cap(dstBuf) {
+		// The carried tail fills the buffer (it came out of a larger one): make room, or the
+		// reader is handed an empty slice and the request fails with "no forward progress made".
+		dstBuf = bytesutil.Resize(dstBuf, 2*cap(dstBuf))
+		dstBuf = dstBuf[:originLen]
+	}
 again:
 	for {
 		n, err := r.Read(dstBuf[len(dstBuf):cap(dstBuf)])
